@@ -220,6 +220,14 @@ func evalBuilt(r *ev.Run, keys []ech.Key, l layout, b echx.Built, tag string) {
 		if res.ServerName != innerName || !slices.Equal(res.ALPN, []string{"h2", "http/1.1"}) {
 			r.Violation("reported-name-alpn"+tag, fmt.Sprintf("ServerName=%q ALPN=%v, want %q [h2 http/1.1]", res.ServerName, res.ALPN, innerName), replay)
 		}
+		// a caller that edits the list it was given must not change what the Conn reports afterwards
+		if l := res.Conn.ALPNProtos(); len(l) > 0 {
+			slices.Reverse(l)
+			l[0] = "tampered"
+			if again := res.Conn.ALPNProtos(); !slices.Equal(again, []string{"h2", "http/1.1"}) {
+				r.Violation("reported-alpn-aliases-state"+tag, fmt.Sprintf("after the caller modified the slice returned by ALPNProtos(), a second call reports %q", again), replay)
+			}
+		}
 		if len(res.ClientOut) != 0 || res.Closed != 0 {
 			r.Violation("wrote-to-client"+tag, fmt.Sprintf("NewConn wrote %x / closed the transport on an accepted hello", res.ClientOut), replay)
 		}
